@@ -251,3 +251,41 @@ def pan6_cold_load_failures_are_values(ctx):
 
 def _short(name):
     return re.sub(r'^.*?(\w+::\w+)$', r'\1', re.sub(r'<(\w+) as \w+>', r'\1', name))
+
+
+# ------------------------------------------------------------------------------------ WHO-6
+def who6_column_handles_are_never_removed(ctx):
+    """`Partition.cols` (name -> handle) only grows.  Absent-column detection reads "the file was loaded
+    and there is no handle for this name" as "the partition has no such column" (ORD-17); eviction
+    therefore empties the *payload* of a handle and keeps the handle.  Removing a handle turns the
+    evicted column into an absent one: it reads as NULL, compaction writes NULLs in its place and
+    deletes the files that still had the values."""
+    ctx.rule('WHO-6', 'no code removes an entry from a partition\'s map of column handles (eviction empties the '
+                      'payload and keeps the handle)', floor=1)
+    P = ctx.P
+    REM = ('remove', 'remove_entry', 'clear', 'retain', 'drain', 'extract_if', 'take')
+    adds = 0
+    for b in P.fn_bodies():
+        if b.crate != 'locustdb':
+            continue
+        if b._lines is not None and not any('ColumnHandle>>' in l for l in b._lines):
+            continue
+        b.parse()
+        for blk, t in b.calls():
+            if blk.cleanup or not t.func:
+                continue
+            f = t.func
+            if 'HashMap::<std::string::String, std::sync::Arc<mem_store::partition::ColumnHandle>>' not in f and \
+                    'hash_map::Entry::<\'_, std::string::String, std::sync::Arc<mem_store::partition::ColumnHandle>>' not in f:
+                continue
+            m = norm_callee(f).split('::')[-1]
+            if m in ('insert', 'entry', 'or_insert', 'or_insert_with'):
+                adds += 1
+                continue
+            if m in REM:
+                ctx.violation('WHO-6', '%s|%s' % (_short(b.name), m),
+                              '%s removes column handles from a partition (HashMap::%s): a column whose file was '
+                              'already loaded, or that lives in a buffer partition, has no way back and reads as '
+                              'NULL from then on' % (_short(b.name), m), where_(t))
+    ctx.check('WHO-6', 'handles-only-added', adds >= 2,
+              '%d sites add handles to a partition\'s column map, none removes one' % adds, 'src/mem_store/partition.rs')
